@@ -1,0 +1,789 @@
+//! Observation hooks for the model-based verification harness.
+//!
+//! This module is only compiled with the cargo feature `breard_r_acmed_verif`.
+//! It never changes a decision of the daemon: it records events (one JSON line
+//! per event, appended with a single `write(2)` to the file named by
+//! `ACMED_VERIF_TRACE`), virtualises the *length* of the deliberate sleeps
+//! (`ACMED_VERIF_TIME_SCALE`, default 0: a sleep becomes a yield), stops the
+//! process after a given number of attempts per certificate
+//! (`ACMED_VERIF_MAX_ATTEMPTS`) and offers probes (`ACMED_VERIF_RUN`) that call
+//! internal functions of the daemon directly.
+
+use crate::account::Account;
+use crate::endpoint::{Endpoint, RateLimit};
+use crate::main_event_loop::MainEventLoop;
+use acme_common::crypto::HashFunction;
+use serde_json::{json, Map, Value};
+use std::cell::RefCell;
+use std::collections::HashMap;
+use std::fs::{File, OpenOptions};
+use std::future::Future;
+use std::io::{Read, Write};
+use std::ops::{Deref, DerefMut};
+use std::pin::Pin;
+use std::sync::atomic::{AtomicU64, Ordering};
+use std::sync::{Mutex, OnceLock};
+use std::task::{Context, Poll};
+use std::time::{Duration, Instant};
+
+// ------------------------------------------------------------------ emitter
+
+static SEQ: AtomicU64 = AtomicU64::new(0);
+static TRACE: OnceLock<Option<Mutex<File>>> = OnceLock::new();
+static T0: OnceLock<Instant> = OnceLock::new();
+
+thread_local! {
+	static CURRENT: RefCell<String> = const { RefCell::new(String::new()) };
+}
+
+fn t0() -> Instant {
+	*T0.get_or_init(Instant::now)
+}
+
+pub fn instant_ns(i: Instant) -> u64 {
+	i.saturating_duration_since(t0()).as_nanos() as u64
+}
+
+fn trace_file() -> &'static Option<Mutex<File>> {
+	TRACE.get_or_init(|| {
+		let _ = t0();
+		match std::env::var("ACMED_VERIF_TRACE") {
+			Ok(p) if !p.is_empty() => OpenOptions::new()
+				.append(true)
+				.create(true)
+				.open(p)
+				.ok()
+				.map(Mutex::new),
+			_ => None,
+		}
+	})
+}
+
+pub fn hex(data: &[u8]) -> String {
+	data.iter().map(|b| format!("{b:02x}")).collect()
+}
+
+pub fn sha256_hex(data: &[u8]) -> String {
+	hex(&HashFunction::Sha256.hash(data))
+}
+
+pub fn current_cert() -> String {
+	CURRENT.with(|c| c.borrow().clone())
+}
+
+/// Appends one event. `fields` must be a JSON object.
+pub fn emit(ev: &str, fields: Value) {
+	let tf = match trace_file() {
+		Some(f) => f,
+		None => return,
+	};
+	let mut obj = Map::new();
+	obj.insert("src".into(), json!("acmed"));
+	obj.insert("ev".into(), json!(ev));
+	obj.insert("pid".into(), json!(std::process::id()));
+	obj.insert("cert".into(), json!(current_cert()));
+	obj.insert("mono_ns".into(), json!(instant_ns(Instant::now())));
+	if let Value::Object(m) = fields {
+		for (k, v) in m {
+			obj.insert(k, v);
+		}
+	}
+	if let Ok(mut f) = tf.lock() {
+		// the sequence number is taken under the same lock as the write
+		obj.insert("seq".into(), json!(SEQ.fetch_add(1, Ordering::SeqCst)));
+		let mut line = Value::Object(obj).to_string();
+		line.push('\n');
+		let _ = f.write_all(line.as_bytes());
+	}
+}
+
+// ------------------------------------------------------------------ tagging
+
+pub struct Tagged<F> {
+	id: String,
+	fut: Pin<Box<F>>,
+}
+
+pub fn tagged<F: Future>(id: String, fut: F) -> Tagged<F> {
+	Tagged {
+		id,
+		fut: Box::pin(fut),
+	}
+}
+
+impl<F: Future> Future for Tagged<F> {
+	type Output = F::Output;
+
+	fn poll(mut self: Pin<&mut Self>, cx: &mut Context<'_>) -> Poll<Self::Output> {
+		let prev = CURRENT.with(|c| std::mem::replace(&mut *c.borrow_mut(), self.id.clone()));
+		let r = self.fut.as_mut().poll(cx);
+		CURRENT.with(|c| *c.borrow_mut() = prev);
+		r
+	}
+}
+
+// ------------------------------------------------------------------ time
+
+fn time_scale() -> f64 {
+	static S: OnceLock<f64> = OnceLock::new();
+	*S.get_or_init(|| {
+		std::env::var("ACMED_VERIF_TIME_SCALE")
+			.ok()
+			.and_then(|s| s.parse::<f64>().ok())
+			.unwrap_or(0.0)
+	})
+}
+
+fn scaled(d: Duration) -> Duration {
+	let s = time_scale();
+	if s <= 0.0 {
+		Duration::ZERO
+	} else {
+		let secs = d.as_secs_f64() * s;
+		// never sleep more than a day of real time, whatever the nominal value
+		Duration::from_secs_f64(secs.min(86_400.0))
+	}
+}
+
+/// Replacement for `tokio::time::sleep` at the daemon's deliberate waits.
+pub async fn on_sleep(kind: &str, nominal: Duration) {
+	emit(
+		"Sleep",
+		json!({"kind": kind, "ms": nominal.as_millis() as u64, "blocking": false}),
+	);
+	let d = scaled(nominal);
+	if d.is_zero() {
+		tokio::task::yield_now().await;
+	} else {
+		tokio::time::sleep(d).await;
+	}
+}
+
+/// Replacement for `std::thread::sleep` at the daemon's deliberate waits.
+pub fn on_thread_sleep(kind: &str, nominal: Duration) {
+	emit(
+		"Sleep",
+		json!({"kind": kind, "ms": nominal.as_millis() as u64, "blocking": true}),
+	);
+	let d = scaled(nominal);
+	if !d.is_zero() {
+		std::thread::sleep(d);
+	}
+}
+
+// ------------------------------------------------------------------ attempts
+
+struct Budget {
+	max: Option<u64>,
+	nb_certs: usize,
+	counts: HashMap<String, u64>,
+	parked: usize,
+}
+
+static BUDGET: OnceLock<Mutex<Budget>> = OnceLock::new();
+
+fn budget() -> &'static Mutex<Budget> {
+	BUDGET.get_or_init(|| {
+		Mutex::new(Budget {
+			max: std::env::var("ACMED_VERIF_MAX_ATTEMPTS")
+				.ok()
+				.and_then(|s| s.parse::<u64>().ok()),
+			nb_certs: 0,
+			counts: HashMap::new(),
+			parked: 0,
+		})
+	})
+}
+
+pub fn set_nb_certs(n: usize) {
+	if let Ok(mut b) = budget().lock() {
+		b.nb_certs = n;
+	}
+	emit("Run", json!({"nb_certs": n}));
+}
+
+/// Called at the very beginning of each renewal round of a certificate.
+pub async fn attempt_gate(cert_id: &str) {
+	let park = {
+		let mut b = budget().lock().unwrap();
+		let n = b.counts.entry(cert_id.to_string()).or_insert(0);
+		*n += 1;
+		let n = *n;
+		match b.max {
+			Some(max) if n > max => {
+				b.parked += 1;
+				if b.parked >= b.nb_certs {
+					drop(b);
+					emit("Exit", json!({"reason": "budget"}));
+					std::process::exit(0);
+				}
+				true
+			}
+			_ => false,
+		}
+	};
+	if park {
+		emit("Parked", json!({}));
+		futures::future::pending::<()>().await;
+	}
+	emit("AttemptStart", json!({}));
+}
+
+// ------------------------------------------------------------------ locks
+
+pub trait Named {
+	fn verif_name(&self) -> String;
+}
+
+impl Named for Account {
+	fn verif_name(&self) -> String {
+		format!("account:{}", self.name)
+	}
+}
+
+impl Named for Endpoint {
+	fn verif_name(&self) -> String {
+		format!("endpoint:{}", self.name)
+	}
+}
+
+/// Same interface as the part of `async_lock::RwLock` the daemon uses; every
+/// request, acquisition and release is recorded.
+pub struct RwLock<T> {
+	name: String,
+	inner: async_lock::RwLock<T>,
+}
+
+pub struct ReadGuard<'a, T> {
+	name: &'a str,
+	owner: String,
+	inner: async_lock::RwLockReadGuard<'a, T>,
+}
+
+pub struct WriteGuard<'a, T> {
+	name: &'a str,
+	owner: String,
+	inner: async_lock::RwLockWriteGuard<'a, T>,
+}
+
+impl<T: Named> RwLock<T> {
+	pub fn new(t: T) -> Self {
+		RwLock {
+			name: t.verif_name(),
+			inner: async_lock::RwLock::new(t),
+		}
+	}
+}
+
+impl<T> RwLock<T> {
+	pub async fn read(&self) -> ReadGuard<'_, T> {
+		let owner = current_cert();
+		emit("LockReq", json!({"lock": self.name, "mode": "r"}));
+		let inner = self.inner.read().await;
+		emit("LockAcq", json!({"lock": self.name, "mode": "r"}));
+		ReadGuard {
+			name: &self.name,
+			owner,
+			inner,
+		}
+	}
+
+	pub async fn write(&self) -> WriteGuard<'_, T> {
+		let owner = current_cert();
+		emit("LockReq", json!({"lock": self.name, "mode": "w"}));
+		let inner = self.inner.write().await;
+		emit("LockAcq", json!({"lock": self.name, "mode": "w"}));
+		WriteGuard {
+			name: &self.name,
+			owner,
+			inner,
+		}
+	}
+}
+
+impl<T> Deref for ReadGuard<'_, T> {
+	type Target = T;
+	fn deref(&self) -> &T {
+		&self.inner
+	}
+}
+
+impl<T> Deref for WriteGuard<'_, T> {
+	type Target = T;
+	fn deref(&self) -> &T {
+		&self.inner
+	}
+}
+
+impl<T> DerefMut for WriteGuard<'_, T> {
+	fn deref_mut(&mut self) -> &mut T {
+		&mut self.inner
+	}
+}
+
+impl<T> Drop for ReadGuard<'_, T> {
+	fn drop(&mut self) {
+		// emitted before the inner guard is released (fields drop after this body)
+		emit(
+			"LockRel",
+			json!({"lock": self.name, "mode": "r", "owner": self.owner}),
+		);
+	}
+}
+
+impl<T> Drop for WriteGuard<'_, T> {
+	fn drop(&mut self) {
+		emit(
+			"LockRel",
+			json!({"lock": self.name, "mode": "w", "owner": self.owner}),
+		);
+	}
+}
+
+// ------------------------------------------------------------------ world snapshots
+
+fn walk(root: &std::path::Path, base: &std::path::Path, out: &mut Vec<Value>, depth: usize) {
+	if depth > 8 {
+		return;
+	}
+	let rd = match std::fs::read_dir(root) {
+		Ok(r) => r,
+		Err(_) => return,
+	};
+	let mut entries: Vec<_> = rd.filter_map(Result::ok).collect();
+	entries.sort_by_key(|e| e.file_name());
+	for e in entries {
+		let p = e.path();
+		let rel = p.strip_prefix(base).unwrap_or(&p).display().to_string();
+		if rel.contains(".git/") || rel.ends_with(".git") {
+			continue;
+		}
+		let md = match std::fs::symlink_metadata(&p) {
+			Ok(m) => m,
+			Err(_) => continue,
+		};
+		use std::os::unix::fs::FileTypeExt;
+		use std::os::unix::fs::MetadataExt;
+		let ft = md.file_type();
+		let kind = if ft.is_dir() {
+			"dir"
+		} else if ft.is_socket() {
+			"sock"
+		} else if ft.is_file() {
+			"file"
+		} else {
+			"other"
+		};
+		let mut o = json!({"path": rel, "kind": kind, "size": md.len(), "mode": md.mode() & 0o7777});
+		if kind == "file" && rel.ends_with(".pid") {
+			if let Ok(s) = std::fs::read_to_string(&p) {
+				let pid = s.trim().to_string();
+				let alive = !pid.is_empty()
+					&& pid.bytes().all(|b| b.is_ascii_digit())
+					&& std::path::Path::new(&format!("/proc/{pid}")).exists();
+				o["pid"] = json!(pid);
+				o["alive"] = json!(alive);
+			}
+		}
+		out.push(o);
+		if ft.is_dir() {
+			walk(&p, base, out, depth + 1);
+		}
+	}
+}
+
+/// Lists the directories named by `ACMED_VERIF_SNAPSHOT_ROOTS` (colon separated).
+pub fn snapshot() -> Value {
+	let mut out = vec![];
+	if let Ok(roots) = std::env::var("ACMED_VERIF_SNAPSHOT_ROOTS") {
+		for r in roots.split(':').filter(|r| !r.is_empty()) {
+			let p = std::path::Path::new(r);
+			walk(p, p, &mut out, 0);
+		}
+	}
+	Value::Array(out)
+}
+
+pub fn snapshot_enabled() -> bool {
+	std::env::var("ACMED_VERIF_SNAPSHOT_ROOTS")
+		.map(|s| !s.is_empty())
+		.unwrap_or(false)
+}
+
+// ------------------------------------------------------------------ dumps
+
+pub fn limiter_state(rl: &RateLimit) -> Value {
+	let (limits, log) = rl.verif_state();
+	json!({
+		"limits": limits.iter().map(|(n, d)| json!([n, d.as_millis() as u64])).collect::<Vec<Value>>(),
+		"log_ns": log.iter().map(|i| instant_ns(*i)).collect::<Vec<u64>>(),
+	})
+}
+
+fn key_digest(k: &crate::account::AccountKey) -> Value {
+	let pem = k.key.public_key_to_pem().unwrap_or_default();
+	json!({
+		"key_type": k.key.key_type.to_string(),
+		"alg": k.signature_algorithm.to_string(),
+		"pub_sha": sha256_hex(&pem),
+		"thumbprint": k.key.jwk_public_key_thumbprint().ok().map(|t| {
+			acme_common::b64_encode(&HashFunction::Sha256.hash(t.to_string().as_bytes()))
+		}),
+		"created": k.creation_date.duration_since(std::time::UNIX_EPOCH).map(|d| d.as_nanos() as u64).unwrap_or(0),
+	})
+}
+
+pub fn account_dump(a: &Account) -> Value {
+	let mut eps = Map::new();
+	let mut names: Vec<&String> = a.endpoints.keys().collect();
+	names.sort();
+	for n in names {
+		let e = &a.endpoints[n];
+		eps.insert(
+			n.clone(),
+			json!({
+				"account_url": e.account_url,
+				"orders_url": e.orders_url,
+				"key_hash": hex(&e.key_hash),
+				"contacts_hash": hex(&e.contacts_hash),
+				"external_account_hash": hex(&e.external_account_hash),
+			}),
+		);
+	}
+	json!({
+		"name": a.name,
+		"contacts": a.contacts.iter().map(|c| c.to_string()).collect::<Vec<String>>(),
+		"current_key": key_digest(&a.current_key),
+		"past_keys": a.past_keys.iter().map(key_digest).collect::<Vec<Value>>(),
+		"endpoints": Value::Object(eps),
+		"external_account": a.external_account.as_ref().map(|e| json!({
+			"identifier": e.identifier,
+			"key_sha": sha256_hex(&e.key),
+			"alg": e.signature_algorithm.to_string(),
+		})),
+		"file_hooks": a.file_manager.hooks.iter().map(|h| h.name.clone()).collect::<Vec<String>>(),
+	})
+}
+
+fn sorted_env(env: &HashMap<String, String>) -> Value {
+	let mut m = Map::new();
+	let mut keys: Vec<&String> = env.keys().collect();
+	keys.sort();
+	for k in keys {
+		m.insert(k.clone(), json!(env[k]));
+	}
+	Value::Object(m)
+}
+
+async fn config_dump(mel: &MainEventLoop) -> Value {
+	let (certs, accounts, endpoints) = mel.verif_parts();
+	let mut jc = Map::new();
+	let mut ids: Vec<&String> = certs.keys().collect();
+	ids.sort();
+	for id in ids {
+		let c = &certs[id];
+		let fm = &c.file_manager;
+		jc.insert(
+			id.clone(),
+			json!({
+				"account": c.account_name,
+				"endpoint": c.endpoint_name,
+				"identifiers": c.identifiers.iter().map(|i| json!({
+					"type": i.id_type.to_string(), "value": i.value,
+					"challenge": i.challenge.to_string(), "env": sorted_env(&i.env),
+				})).collect::<Vec<Value>>(),
+				"key_type": c.key_type.to_string(),
+				"csr_digest": c.csr_digest.to_string(),
+				"kp_reuse": c.kp_reuse,
+				"renew_delay_s": c.renew_delay.as_secs(),
+				"random_early_renew_s": c.random_early_renew.as_secs(),
+				"file_name_format": fm.crt_name_format,
+				"directory": fm.crt_directory,
+				"crt_name": c.crt_name,
+				"cert_path": crate::storage::get_certificate_path(fm).await.ok().map(|p| p.display().to_string()),
+				"pk_path": crate::storage::get_keypair_path(fm).await.ok().map(|p| p.display().to_string()),
+				"hooks": c.hooks.iter().map(|h| h.name.clone()).collect::<Vec<String>>(),
+				"file_hooks": fm.hooks.iter().map(|h| h.name.clone()).collect::<Vec<String>>(),
+				"env": sorted_env(&c.env),
+				"cert_file_mode": fm.cert_file_mode,
+				"cert_file_user": fm.cert_file_owner,
+				"cert_file_group": fm.cert_file_group,
+				"cert_file_ext": fm.cert_file_ext,
+				"pk_file_mode": fm.pk_file_mode,
+				"pk_file_user": fm.pk_file_owner,
+				"pk_file_group": fm.pk_file_group,
+				"pk_file_ext": fm.pk_file_ext,
+				"accounts_directory": fm.account_directory,
+			}),
+		);
+	}
+	let mut ja = Map::new();
+	let mut names: Vec<&String> = accounts.keys().collect();
+	names.sort();
+	for n in names {
+		let a = accounts[n].read().await;
+		ja.insert(n.clone(), account_dump(&a));
+	}
+	let mut je = Map::new();
+	let mut names: Vec<&String> = endpoints.keys().collect();
+	names.sort();
+	for n in names {
+		let e = endpoints[n].read().await;
+		je.insert(
+			n.clone(),
+			json!({
+				"url": e.url,
+				"tos_agreed": e.tos_agreed,
+				"root_certificates": e.root_certificates,
+				"limiter": limiter_state(&e.rl),
+			}),
+		);
+	}
+	json!({"ok": true, "certificates": jc, "accounts": ja, "endpoints": je})
+}
+
+// ------------------------------------------------------------------ probes
+
+fn read_stdin_json() -> Value {
+	let mut s = String::new();
+	let _ = std::io::stdin().read_to_string(&mut s);
+	serde_json::from_str(&s).unwrap_or(Value::Null)
+}
+
+fn out(v: Value) {
+	let mut line = v.to_string();
+	line.push('\n');
+	let _ = std::io::stdout().write_all(line.as_bytes());
+	let _ = std::io::stdout().flush();
+}
+
+fn str_list(v: &Value) -> Vec<String> {
+	v.as_array()
+		.map(|a| {
+			a.iter()
+				.filter_map(|e| e.as_str().map(str::to_string))
+				.collect()
+		})
+		.unwrap_or_default()
+}
+
+async fn probe_config(input: &Value) {
+	let cfg = input["config"].as_str().unwrap_or_default();
+	let roots = str_list(&input["root_certs"]);
+	let roots: Vec<&str> = roots.iter().map(String::as_str).collect();
+	match MainEventLoop::new(cfg, &roots).await {
+		Ok(mel) => out(config_dump(&mel).await),
+		Err(e) => out(json!({"ok": false, "error": e.message})),
+	}
+}
+
+async fn probe_schedule(input: &Value) {
+	let cfg = input["config"].as_str().unwrap_or_default();
+	let n = input["samples"].as_u64().unwrap_or(1);
+	match MainEventLoop::new(cfg, &[]).await {
+		Ok(mel) => {
+			let (certs, _, _) = mel.verif_parts();
+			let mut res = Map::new();
+			let mut ids: Vec<&String> = certs.keys().collect();
+			ids.sort();
+			for id in ids {
+				let mut v = vec![];
+				for _ in 0..n {
+					match certs[id].schedule_renewal().await {
+						Ok(d) => v.push(json!({"ok": true, "ms": d.as_millis() as u64, "s": d.as_secs()})),
+						Err(e) => v.push(json!({"ok": false, "error": e.message})),
+					}
+				}
+				res.insert(id.clone(), Value::Array(v));
+			}
+			out(json!({"ok": true, "results": res}));
+		}
+		Err(e) => out(json!({"ok": false, "error": e.message})),
+	}
+}
+
+fn probe_period(input: &Value) {
+	let mut res = vec![];
+	for s in str_list(&input["strings"]) {
+		// a panic (overflow in debug builds) is data, not a crash of the probe
+		let r = std::panic::catch_unwind(|| crate::duration::parse_duration(&s));
+		res.push(match r {
+			Ok(Ok(d)) => json!({"in": s, "ok": true, "secs": d.as_secs().to_string(), "nanos": d.subsec_nanos()}),
+			Ok(Err(e)) => json!({"in": s, "ok": false, "error": e.message}),
+			Err(_) => json!({"in": s, "ok": false, "panic": true}),
+		});
+	}
+	out(json!({"ok": true, "results": res}));
+}
+
+async fn probe_ratelimit(input: &Value) {
+	// {"limits":[[n,"2s"],...], "calls":[gap_ms,...]}: the calls are made one after
+	// the other, each after sleeping gap_ms (real time) from the return of the previous.
+	let limits: Vec<(usize, String)> = input["limits"]
+		.as_array()
+		.map(|a| {
+			a.iter()
+				.map(|l| {
+					(
+						l[0].as_u64().unwrap_or(0) as usize,
+						l[1].as_str().unwrap_or_default().to_string(),
+					)
+				})
+				.collect()
+		})
+		.unwrap_or_default();
+	let mut rl = match RateLimit::new(&limits) {
+		Ok(r) => r,
+		Err(e) => {
+			out(json!({"ok": false, "error": e.message}));
+			return;
+		}
+	};
+	let timeout = Duration::from_millis(input["call_timeout_ms"].as_u64().unwrap_or(60_000));
+	let mut calls = vec![];
+	for gap in input["calls"].as_array().cloned().unwrap_or_default() {
+		let gap = gap.as_u64().unwrap_or(0);
+		if gap > 0 {
+			tokio::time::sleep(Duration::from_millis(gap)).await;
+		}
+		let t_call = Instant::now();
+		let r = tokio::time::timeout(timeout, rl.block_until_allowed()).await;
+		let t_ret = Instant::now();
+		let (_, log) = rl.verif_state();
+		calls.push(json!({
+			"call_ns": instant_ns(t_call),
+			"ret_ns": instant_ns(t_ret),
+			"timed_out": r.is_err(),
+			"pushed_ns": if r.is_ok() { log.last().map(|i| instant_ns(*i)) } else { None },
+			"log_len": log.len(),
+		}));
+		if r.is_err() {
+			break;
+		}
+	}
+	out(json!({"ok": true, "limiter": limiter_state(&rl), "calls": calls}));
+}
+
+async fn probe_storage(input: &Value) {
+	// {"fm": {...}, "ops": [{"type":"pk|crt|account","fill":65,"len":1024}]}
+	let f = &input["fm"];
+	let s = |k: &str| f[k].as_str().unwrap_or_default().to_string();
+	let so = |k: &str| f[k].as_str().map(str::to_string);
+	let fm = crate::storage::FileManager {
+		account_name: s("account_name"),
+		account_directory: s("account_directory"),
+		crt_name: s("crt_name"),
+		crt_name_format: f["crt_name_format"]
+			.as_str()
+			.unwrap_or(crate::DEFAULT_CERT_FORMAT)
+			.to_string(),
+		crt_directory: s("crt_directory"),
+		crt_key_type: s("crt_key_type"),
+		cert_file_mode: f["cert_file_mode"]
+			.as_u64()
+			.map(|m| m as u32)
+			.unwrap_or(crate::DEFAULT_CERT_FILE_MODE),
+		cert_file_owner: so("cert_file_owner"),
+		cert_file_group: so("cert_file_group"),
+		cert_file_ext: so("cert_file_ext"),
+		pk_file_mode: f["pk_file_mode"]
+			.as_u64()
+			.map(|m| m as u32)
+			.unwrap_or(crate::DEFAULT_PK_FILE_MODE),
+		pk_file_owner: so("pk_file_owner"),
+		pk_file_group: so("pk_file_group"),
+		pk_file_ext: so("pk_file_ext"),
+		hooks: vec![],
+		env: HashMap::new(),
+	};
+	if let Some(u) = input["umask"].as_u64() {
+		nix::sys::stat::umask(nix::sys::stat::Mode::from_bits_truncate(u as u32));
+	}
+	let mut res = vec![];
+	for op in input["ops"].as_array().cloned().unwrap_or_default() {
+		let len = op["len"].as_u64().unwrap_or(0) as usize;
+		let fill = op["fill"].as_u64().unwrap_or(65) as u8;
+		let data = vec![fill; len];
+		let t = op["type"].as_str().unwrap_or_default().to_string();
+		let r = crate::storage::verif_write(&fm, &t, &data).await;
+		res.push(match r {
+			Ok(p) => json!({"ok": true, "type": t, "path": p, "len": len, "sha": sha256_hex(&data)}),
+			Err(e) => json!({"ok": false, "type": t, "error": e.message}),
+		});
+	}
+	out(json!({"ok": true, "results": res}));
+}
+
+fn probe_jws(input: &Value) {
+	// {"key_type":"ecdsa_p256","alg":"ES256","count":100,"kid":"...","url":"..."}:
+	// produces `count` JWS through the daemon's own encode_kid / encode_jwk.
+	use acme_common::crypto::{gen_keypair, KeyType};
+	let kt: KeyType = match input["key_type"].as_str().unwrap_or_default().parse() {
+		Ok(k) => k,
+		Err(e) => {
+			let e: acme_common::error::Error = e;
+			out(json!({"ok": false, "error": e.message}));
+			return;
+		}
+	};
+	let count = input["count"].as_u64().unwrap_or(1);
+	let keys = input["keys"].as_u64().unwrap_or(1).max(1);
+	let url = input["url"].as_str().unwrap_or("http://x/y");
+	let kid = input["kid"].as_str().unwrap_or("http://x/acct/1");
+	let mut res = vec![];
+	for k in 0..keys {
+		let kp = match gen_keypair(kt) {
+			Ok(k) => k,
+			Err(e) => {
+				out(json!({"ok": false, "error": e.message}));
+				return;
+			}
+		};
+		let alg = match input["alg"].as_str() {
+			Some(a) => a.parse().unwrap_or(kt.get_default_signature_alg()),
+			None => kt.get_default_signature_alg(),
+		};
+		let jwk = kp.jwk_public_key().unwrap_or(Value::Null);
+		let mut msgs = vec![];
+		for i in 0..count {
+			let payload = format!("{{\"n\":{i},\"k\":{k}}}");
+			let nonce = format!("n{k}x{i}");
+			let s = if i % 2 == 0 {
+				crate::jws::encode_kid(&kp, &alg, kid, payload.as_bytes(), url, &nonce)
+			} else {
+				crate::jws::encode_jwk(&kp, &alg, payload.as_bytes(), url, Some(nonce))
+			};
+			match s {
+				Ok(s) => msgs.push(serde_json::from_str::<Value>(&s).unwrap_or(Value::Null)),
+				Err(e) => msgs.push(json!({"error": e.message})),
+			}
+		}
+		res.push(json!({"jwk": jwk, "alg": alg.to_string(), "jws": msgs}));
+	}
+	out(json!({"ok": true, "results": res}));
+}
+
+/// Returns true when a probe was requested (and has been run).
+pub async fn run_probe() -> bool {
+	let name = match std::env::var("ACMED_VERIF_RUN") {
+		Ok(n) if !n.is_empty() => n,
+		_ => return false,
+	};
+	let _ = set_quiet_logs();
+	let input = read_stdin_json();
+	match name.as_str() {
+		"config-dump" | "account-dump" => probe_config(&input).await,
+		"schedule" => probe_schedule(&input).await,
+		"period" => probe_period(&input),
+		"ratelimit" => probe_ratelimit(&input).await,
+		"storage" => probe_storage(&input).await,
+		"jws" => probe_jws(&input),
+		_ => out(json!({"ok": false, "error": format!("{name}: unknown probe")})),
+	}
+	true
+}
+
+fn set_quiet_logs() -> Result<(), acme_common::error::Error> {
+	let lvl = std::env::var("ACMED_VERIF_LOG_LEVEL").unwrap_or_else(|_| "error".to_string());
+	acme_common::logs::set_log_system(Some(&lvl), false, true).map(|_| ())
+}
